@@ -3,6 +3,7 @@
 use vstd::prelude::*;
 verus! {
 //@include prelude/core.rs
+//@include prelude/std_misc.rs
 //@include inc/codec_common.rs
 //@include inc/raw_header.rs
 
